@@ -149,12 +149,28 @@ def obs_res(a):
 
 
 # --------------------------------------------------------------------------------------------- TLC
+def act_class(e):
+    a = e["a"]
+    c = a["act"]
+    if c == "Receive":
+        return "Receive:%s:%s" % (a["path"], a["res"])
+    if c == "PeerConnected":
+        return "PeerConnected:" + ("forward" if a["fwd"] else a["res"])
+    if c == "Cleanup":
+        return "Cleanup:" + ("removes" if e["s"]["cache"] != e["t"]["cache"] else "nothing")
+    return c
+
+
 class Rel:
     """Edge relation split into the ideal part and the one-deviation-step part."""
 
     def __init__(self, r):
         self.tlc = r
         self.edges = [e for e in r.edges if "dev" not in e["a"]]
+        self.classes = {}
+        for e in self.edges:
+            k = act_class(e)
+            self.classes[k] = self.classes.get(k, 0) + 1
         self.dev = {}
         for e in r.edges:
             if "dev" in e["a"]:
@@ -167,16 +183,17 @@ def model(ctx, insts):
     ghosts hidden.  Per deviation: Dev = {d} against the property-level invariant -> shortest counterexample."""
     par = Par()
     w = 2 if ctx.quick() else 4
+    heap = "1g" if ctx.quick() else "4g"      # small heaps: a dozen JVMs run side by side
     for name, inst in insts.items():
         par.go("ideal:" + name, ctx.tlc, MODULE, "MC.cfg", files=mcfiles(inst, emit=False), workers=w,
-               name="ideal-" + name)
+               name="ideal-" + name, heap=heap)
         par.go("rel:" + name, ctx.tlc, MODULE, "MC.cfg",
                files=mcfiles(inst, dev=DEVS, onedev=True, invs="", props="", view="viewCore"), workers=w,
-               name="rel-" + name)
+               name="rel-" + name, heap=heap)
     for d, info in DEVINFO.items():
         par.go("cex:" + d, ctx.tlc, MODULE, "MC.cfg",
                files=mcfiles(insts[info["inst"]], dev=[d], emit=False, invs=info["inv"], props=""), workers=1,
-               expect_violation=True, name="cex-" + d)
+               expect_violation=True, name="cex-" + d, heap=heap)
     out = par.join()
     res = {"ideal": {}, "rel": {}, "cex": {}, "caught": {}}
     for name in insts:
@@ -187,6 +204,16 @@ def model(ctx, insts):
         res["rel"][name] = Rel(out["rel:" + name])
         if not res["rel"][name].edges:
             raise vf.Infra("no edges emitted for instance " + name)
+    # non-vacuity: every action / outcome class of the ideal design is taken in some instance
+    seen = set()
+    for name in insts:
+        seen |= set(res["rel"][name].classes)
+    need = ["Receive:%s:%s" % (p, r) for p in ("sleep", "wake", "qsleep", "qwake") for r in ("accept", "invalid", "dup", "loop")] + \
+           ["Tick", "Cleanup:removes", "Cleanup:nothing", "PeerConnected:forward", "PeerConnected:none",
+            "PeerConnected:expired", "LocalIssue"]
+    missing = [c for c in need if c not in seen]
+    if missing:
+        raise vf.Infra("vacuous model: no transition of class %s in any instance" % missing)
     for d, info in DEVINFO.items():
         r = out["cex:" + d]
         if r.violated != info["inv"]:
@@ -201,51 +228,115 @@ def model(ctx, insts):
 
 
 # --------------------------------------------------------------------------------------------- edge cover
-def cover(edges, max_len=120):
-    """Edge cover of the ideal relation.  Deterministic edges: vf.path_cover.  An action with several possible
-    post-states (eviction victims are chosen by map iteration order) ends its path: the real code may take any of
-    them ('alts')."""
+def cover(edges, max_len=150):
+    """Edge cover of the ideal relation: every transition is the step of at least one path starting in an initial
+    state.  Walks follow uncovered edges greedily (a short bounded search bridges to the next uncovered edge) and
+    are prefixed by the shortest path from an initial state (BFS tree).  An action with several possible post-states
+    (eviction victims are chosen by map iteration order) ends its path: the real code may take any of them ('alts').
+    Linear in the number of edges (the library's path_cover is quadratic on relations of 10^5 edges)."""
     succ = {}
     for e in map(strip, edges):
         succ.setdefault((vf.canon(e["s"]), vf.canon(e["a"])), {})[vf.canon(e["t"])] = e
-    det = [list(v.values())[0] for v in succ.values() if len(v) == 1]
-    nondet = [v for v in succ.values() if len(v) > 1]
-    paths, nnodes, nedges = vf.path_cover(det, init_pred=is_init, max_len=max_len)
-    for p in paths:
-        p["label"] = "cover"
-    if nondet:
-        # BFS tree over deterministic edges for the prefixes
-        out, nodes = {}, {}
-        for e in det:
-            ks, kt = vf.canon(e["s"]), vf.canon(e["t"])
-            nodes[ks], nodes[kt] = e["s"], e["t"]
-            out.setdefault(ks, []).append((e, kt))
-        inits = [k for k, s in nodes.items() if is_init(s)]
-        pred = {k: None for k in inits}
-        q = list(inits)
-        while q:
+    nodes, out, nondet = {}, {}, []
+    for (ks, ka), ts in succ.items():
+        es = list(ts.values())
+        nodes.setdefault(ks, es[0]["s"])
+        for kt, e in ts.items():
+            nodes.setdefault(kt, e["t"])
+        if len(es) == 1:
+            out.setdefault(ks, []).append((es[0], vf.canon(es[0]["t"])))
+        else:
+            nondet.append((ks, es))
+    inits = [k for k, s in nodes.items() if is_init(s)]
+    if not inits:
+        raise vf.Infra("cover: no initial state")
+    pred, order = {k: None for k in inits}, list(inits)
+    q = list(inits)
+    while q:
+        nq = []
+        for u in q:
+            for e, v in out.get(u, []):
+                if v not in pred:
+                    pred[v] = (u, e)
+                    nq.append(v)
+                    order.append(v)
+        q = nq
+
+    def prefix(k):
+        steps = []
+        while pred[k] is not None:
+            u, e = pred[k]
+            steps.append({"a": e["a"], "t": e["t"]})
+            k = u
+        steps.reverse()
+        return k, steps
+
+    nxt = {k: 0 for k in out}          # per node: index of the first possibly uncovered out-edge
+    covered = set()
+
+    def uncovered(u):
+        lst = out.get(u, [])
+        i = nxt.get(u, 0)
+        while i < len(lst) and id(lst[i][0]) in covered:
+            i += 1
+        if u in nxt:
+            nxt[u] = i
+        return lst[i] if i < len(lst) else None
+
+    def bridge(u, budget=60):
+        # bounded BFS to a node that still has an uncovered out-edge
+        seen, q = {u: None}, [u]
+        while q and budget > 0:
             nq = []
-            for u in q:
-                for e, v in out.get(u, []):
-                    if v not in pred:
-                        pred[v] = (u, e)
+            for x in q:
+                budget -= 1
+                if x != u and uncovered(x) is not None:
+                    p = []
+                    while seen[x] is not None:
+                        y, e = seen[x]
+                        p.append((e, x))
+                        x = y
+                    p.reverse()
+                    return p
+                for e, v in out.get(x, []):
+                    if v not in seen:
+                        seen[v] = (x, e)
                         nq.append(v)
             q = nq
-        for group in nondet:
-            es = list(group.values())
-            ks = vf.canon(es[0]["s"])
-            if ks not in pred:
-                raise vf.Infra("cover: state of a nondeterministic step is not reachable over deterministic edges")
-            steps, x = [], ks
-            while pred[x] is not None:
-                u, e = pred[x]
+        return None
+
+    paths, nedges = [], 0
+    for k in order:
+        while uncovered(k) is not None:
+            init, steps = prefix(k)
+            cur = k
+            while len(steps) < max_len:
+                nx = uncovered(cur)
+                if nx is None:
+                    br = bridge(cur)
+                    if br is None or len(steps) + len(br) >= max_len:
+                        break
+                    for e, v in br:
+                        steps.append({"a": e["a"], "t": e["t"]})
+                        cur = v
+                    continue
+                e, v = nx
+                covered.add(id(e))
+                nedges += 1
                 steps.append({"a": e["a"], "t": e["t"]})
-                x = u
-            steps.reverse()
-            steps.append({"a": es[0]["a"], "t": es[0]["t"], "alts": [e["t"] for e in es]})
-            paths.append({"label": "cover", "init": nodes[x], "steps": steps})
-            nedges += len(es)
-    return paths, nnodes, nedges, len(nondet)
+                cur = v
+            paths.append({"label": "cover", "init": nodes[init], "steps": steps})
+    unreach = [ks for ks in out if ks not in pred]
+    if unreach:
+        raise vf.Infra("cover: %d states are not reachable over deterministic edges" % len(unreach))
+    for ks, es in nondet:
+        if ks not in pred:
+            raise vf.Infra("cover: state of a nondeterministic step is not reachable over deterministic edges")
+        init, steps = prefix(ks)
+        steps.append({"a": es[0]["a"], "t": es[0]["t"], "alts": [e["t"] for e in es]})
+        paths.append({"label": "cover", "init": nodes[init], "steps": steps})
+        nedges += len(es)
+    return paths, len(nodes), nedges, len(nondet)
 
 
 # --------------------------------------------------------------------------------------------- replay drivers
@@ -254,6 +345,21 @@ def harness_input(inst, paths, **extra):
          "peers": inst["peers"], "newpeers": inst["newpeers"], "paths": paths}
     d.update(extra)
     return d
+
+
+def compact(paths):
+    """States and actions stored once, paths as index pairs (the flood relation has 10^5 edges)."""
+    states, acts, si, ai = [], [], {}, {}
+
+    def idx(tab, ix, o):
+        k = vf.canon(o)
+        if k not in ix:
+            ix[k] = len(tab)
+            tab.append(o)
+        return ix[k]
+    out = [{"label": p["label"], "init": idx(states, si, p["init"]),
+            "steps": [[idx(acts, ai, x["a"]), idx(states, si, x["t"])] for x in p["steps"]]} for p in paths]
+    return states, acts, out
 
 
 def replay_flood(ctx, name, inst, paths):
@@ -268,7 +374,8 @@ def replay_flood(ctx, name, inst, paths):
             raise vf.Infra("flood replay (%s): %d paths still stalled after 3 rounds (machine too loaded for unit %d ms)"
                            % (name, len(todo), unit))
         fn = os.path.join(ctx.work, "sleepcmd_%s_%d.json" % (name, rounds))
-        vf.write_json(fn, harness_input(inst, [paths[i] for i in todo], unit_ms=unit, slack_ms=unit // 2 - 700,
+        states, acts, cp = compact([paths[i] for i in todo])
+        vf.write_json(fn, harness_input(inst, cp, states=states, acts=acts, unit_ms=unit, slack_ms=unit // 2 - 700,
                                         spread_ms=unit))
         r = ctx.gotest("flood", HF_FLOOD, "^TestZZVSleepCmdReplay$", env={"ZZV_IN": fn}, timeout=600)
         summ = r.of("summary")
@@ -579,6 +686,7 @@ def check(ctx, pid):
         replayed_steps=steps, replayed_paths={n: len(p["paths"]) for n, p in plans.items()},
         model={n: {"generated": m["ideal"][n].generated, "distinct": m["ideal"][n].distinct, "edges": plans[n]["edges"],
                    "nodes": plans[n]["nodes"], "nondeterministic_steps": plans[n]["nondet"]} for n in insts},
+        action_coverage={n: m["rel"][n].classes for n in insts},
         deviations_caught=m["caught"], counterexamples_reproduced_on_code=stats["cex_reproduced"],
         trace_validation=dict(stats["trace"], constants="clock 0..%d, Cap=%d, genuine %s, forged %s, peers %s" % (
             ti["maxclock"], ti["cap"], ti["genuine"], ti["forged"], ti["peers"])),
